@@ -221,7 +221,14 @@ class FakeDatagramTransport(asyncio.DatagramTransport):
         return default
 
     # -- what the environment does ----------------------------------------------
-    def inject_datagram(self, data, addr=("192.0.2.1", 161)):
+    def inject_datagram(self, data, addr=None):
+        if addr is None:
+            # the peer the socket is connected to, as the OS reports it: a
+            # 2-tuple for IPv4, a 4-tuple (flow info, scope id) for IPv6
+            addr = ("192.0.2.1", 161)
+            if self.remote_addr is not None:
+                host, port = self.remote_addr[0], self.remote_addr[1]
+                addr = (host, port, 0, 0) if ":" in str(host) else (host, port)
         if self.closing:
             self.dropped.append((CLOCK.mono, bytes(data)))
             return False
